@@ -102,6 +102,27 @@ def instance(name, tier, rng):
                         continue        # the manual double-board tree (80k states) and the tournament double board: thorough tier
                     cfgs.append({'cfg': cfg(2, st, 'No-limit', [0, 0], [1, 2], 0, (2, 3), ['StandardHigh'], range(52), autos, tour,
                                              boards0=boards0, werr=True), 'decks': dk})
+    elif name == 'hilo':
+        # split pots: two hand types (high, eight-or-better low), two starting boards, side pots - everything the award rule splits over
+        low = [48, 0, 4, 9, 13, 25, 44, 45, 50, 2, 6, 43, 49, 1]       # Ac 2c 3c 4d 5d 8d Kc Kd Ah 2h 3h Qs Ad 2d
+        st = [street(False, [False, False], 0, False, 'Position', 2, -1), street(True, [], 3, False, 'Position', 2, -1)]
+        dk = [rng.sample(low, len(low)) for _ in range(3 if q else 8)]
+        for n, stacks, blinds in ((2, (2, 2), [1, 2]), (2, (3, 5), [1, 2]), (3, (1, 2, 3), [1, 2, 0])):
+            for boards0 in (1, 2):
+                if n == 3 and boards0 == 2:
+                    continue        # 6 hole + 6 board + burn > 14 cards
+                cfgs.append({'cfg': cfg(n, st, 'No-limit', [0] * n, blinds, 0, stacks, ['StandardHigh', 'EightOrBetter'], low, list(ALL_AUTOS), True,
+                                         boards0=boards0), 'decks': dk})
+    elif name == 'blindlayouts':
+        # who opens: straddles, late posts (negative), short posters, heads-up - on the two-street flop game, mechanical steps automated
+        st = [street(False, [False, False], 0, False, 'Position', 2, -1), street(True, [], 3, False, 'Position', 2, -1)]
+        dk = [rng.sample(ROYAL, 20)]
+        mech = ['Ante posting', 'Bet collection', 'Blind or straddle posting', 'Card burning', 'Hole dealing', 'Board dealing',
+                'Hole cards showing or mucking', 'Hand killing', 'Chips pushing', 'Chips pulling']
+        for blinds, stacks in (([1, 2, 4], (6, 6, 6)), ([1, 2, 0, -2], (5, 5, 5, 5)), ([1, 2, 4, 0], (3, 1, 6, 5)), ([1, 2], (1, 4)), ([1, 2, 0], (4, 1, 4)),
+                               ([1, 2, 2], (4, 4, 4))):
+            cfgs.append({'cfg': cfg(len(blinds), st, 'No-limit' if len(blinds) < 4 else 'Fixed-limit', [0] * len(blinds), blinds, 0, stacks, ['StandardHigh'],
+                                     ROYAL, mech, True), 'decks': dk})
     else:
         raise KeyError(name)
     return {'cfgs': cfgs, 'maxrunout': maxrunout, 'keephist': keephist, 'counts': counts}
@@ -216,9 +237,9 @@ def replay_behaviour(tid, inst, beh, probe_level=None):
 
 
 MC_FOR = {
-    'C01': ['kuhn', 'miniflop'], 'C02': ['miniflop', 'runout'], 'C03': ['miniflop', 'ministud'], 'C06': ['minidraw', 'kuhn'],
+    'C01': ['kuhn', 'miniflop'], 'C02': ['miniflop', 'hilo', 'runout'], 'C03': ['miniflop', 'ministud'], 'C06': ['minidraw', 'kuhn'],
     'C07': ['kuhn', 'ministud', 'minidraw'], 'C08': ['kuhn', 'minidraw'], 'C09': ['kuhn', 'ministud'], 'C10': ['ministud', 'minidraw'],
-    'C12': ['miniflop', 'kuhn'], 'C13': ['ministud', 'miniflop'], 'C14': ['runout'], 'C15': ['kuhn', 'minidraw'],
+    'C12': ['miniflop', 'hilo'], 'C13': ['ministud', 'blindlayouts'], 'C14': ['runout'], 'C15': ['kuhn', 'minidraw'],
 }
 # which model-level invariants / properties decide which property (C09, C12: see DESIGN - decided by the conformance part; the
 # instances still provide the behaviours that are replayed into the code)
